@@ -55,6 +55,9 @@ CHECKS = {
  "C06": ("exploration", "reader vs abstract model: independent Verilog writer renders random abstract designs; parsed netlist compared bit by bit with the model; bundled .v under a reduced oracle",
          "ports (direction/width/base), one cable per net, bit k of every connection expression on bit k of the instance port (named and positional), assigns, parameters, attributes, undeclared primitives, single root = top, well-formed and self-contained.",
          "port ORDER not compared; no empty positional entries; positional maps on not-yet-declared modules fenced by an open finding; bundled files: reduced oracle", "4 C06"),
+ "C18": ("exploration", "reader vs abstract flat model (independent EBLIF writer) + compose->parse round trip, nets compared as sets of pins",
+         "one instance per statement with model/type/data, model ports with direction, every formal=actual on the named net bit, .conn merging, unconn left open, black boxes as leaf primitives, self-contained; round trip preserves instances, types, data and pin sets.",
+         "single driver per net; unique .cname on .subckt/.gate; .conn between scalar nets; dense top-level bus ports; 'unconn' bookkeeping list not compared across the round trip", "4 C18"),
 }
 NA = {}
 fixes = subprocess.run(["git", "-C", "/repo", "log", "--format=%h %s"], capture_output=True, text=True).stdout.splitlines()
